@@ -5,6 +5,10 @@
    history = comma separated key=value list:
      src=api:loop | api:sieve | api:memop | scan:<file.mir> | scanstr:sieve | bin:<file.mir> | c2m:<name or file.c>
          | adt  (no MIR context: mir-varr.h / mir-htab.h used directly with the ledger allocator)
+         | scanstr:jcall     jcall through a variadic prototype + jret (generated, never executed)
+         | scanstr:manyargs  main calls an external variadic function with 70 arguments
+         | bigcode           modules of functions with hundreds of call sites are loaded, linked and generated
+                             one after the other until rep code patches straddled a page boundary
      link=none|interp|gen|lazy|lazybb      interface passed to MIR_link
      opt=0..3                              MIR_gen_set_optimize_level
      run=0|1                               execute `main` (if the module has one) through the interface
@@ -62,7 +66,17 @@ static int q_puts (const char *s) { return fputs (s, devnull); }
 static int q_putchar (int c) { return fputc (c, devnull); }
 static void q_exit (long code) { (void) code; } /* the tests call exit (0) as their last statement */
 
+static long q_sumv (long n, ...) {
+  va_list ap;
+  long s = 0;
+  va_start (ap, n);
+  while (n-- > 0) s += va_arg (ap, long);
+  va_end (ap);
+  return s;
+}
+
 static void *resolver (const char *name) {
+  if (strcmp (name, "sumv") == 0) return q_sumv;
   if (strcmp (name, "printf") == 0) return q_printf;
   if (strcmp (name, "puts") == 0) return q_puts;
   if (strcmp (name, "putchar") == 0) return q_putchar;
@@ -128,6 +142,36 @@ static const char *c_inputs[][2] = {
    "  return !(apply (ops[0], 2, 3) == 5 && apply (ops[1], 6, 7) == 42 && vsum (3, 1, 2, 3) == 6 && buf[15] == 15 && z == 16); }\n"},
   {"empty", "int main (void) { return 0; }\n"},
 };
+
+/* MIR_JCALL through a variadic prototype: at -O0 the x86-64 generator keeps a per-insn bitmap of the hard
+   registers used for the call (AX = number of vector arguments).  `run` is only generated, never executed. */
+static const char *jcall_prog
+  = "m: module\n"
+    "p_t: proto i64:x, ...\n"
+    "export run\n"
+    "target: func i64:x, ...\n"
+    "  jret x\n"
+    "  endfunc\n"
+    "run: func i64, i64:c\n"
+    "  local i64:r\n"
+    "  mov r, 42\n"
+    "  bf done, c\n"
+    "  jcall p_t, target, c, r\n"
+    "done:\n"
+    "  add r, r, c\n"
+    "  ret r\n"
+    "  endfunc\n"
+    "  endmodule\n";
+
+static char *manyargs_prog (void) { /* call p, sumv, r, 70, 1, 2, ..., 70 */
+  static char buf[2000];
+  char *s = buf;
+  int i;
+  s += sprintf (s, "m: module\np: proto i64, i64:n, ...\nimport sumv\nmain: func i64\n  local i64:r\n  call p, sumv, r, 70");
+  for (i = 1; i <= 70; i++) s += sprintf (s, ", %d", i);
+  s += sprintf (s, "\n  sub r, r, 2485\n  ret r\n  endfunc\n  endmodule\n");
+  return buf;
+}
 
 struct str_in {
   const char *s;
@@ -211,6 +255,12 @@ static int build (MIR_context_t ctx, struct hist *h, int *c2m_active) {
     MIR_module_t m;
     API ("build_api");
     create_mir_example2 (ctx, &m);
+  } else if (strcmp (s, "scanstr:jcall") == 0) {
+    API ("MIR_scan_string");
+    MIR_scan_string (ctx, jcall_prog);
+  } else if (strcmp (s, "scanstr:manyargs") == 0) {
+    API ("MIR_scan_string");
+    MIR_scan_string (ctx, manyargs_prog ());
   } else if (strcmp (s, "scanstr:sieve") == 0) {
     MIR_module_t m;
     API ("MIR_scan_string");
@@ -307,6 +357,63 @@ static const char *run_adt (const char *name) {
   return NULL;
 }
 
+/* Generated code larger than a page with many in-place patches (call sites are rewritten to rel32 calls after
+   the code is published).  Modules are added (load, link with the generator interface) until at least `rep`
+   mem_protect requests of a patch covered two pages, i.e. the patched bytes straddled a page boundary. */
+#define BIG_CALLS 700
+#define BIG_MAX_MODULES 12
+static const char *run_bigcode (struct hist *h, const char *name) {
+  static char prog[BIG_CALLS * 40 + 4096];
+  MIR_context_t ctx;
+  MIR_module_t m;
+  int k, i;
+  long res = 0;
+
+  c17_start (name);
+  if (setjmp (err_jmp)) return err_msg;
+  API ("MIR_init2");
+  ctx = MIR_init2 (c17_alloc (), c17_code_alloc ());
+  MIR_set_error_func (ctx, on_error);
+  API ("MIR_gen_init");
+  MIR_gen_init (ctx);
+  MIR_gen_set_optimize_level (ctx, (unsigned) h->opt);
+  MIR_scan_string (ctx, "m0: module\nexport callee\ncallee: func i64, i64:x\n  local i64:r\n  add r, x, 1\n  ret r\n  endfunc\n  endmodule\n");
+  for (k = 0; k < BIG_MAX_MODULES && c17_straddling_protects () < h->rep; k++) {
+    char *s = prog, fname[32];
+    MIR_item_t it, f = NULL;
+    s += sprintf (s, "m%d: module\nimport callee\np: proto i64, i64:x\nf%d: func i64, i64:x\n  local i64:r\n  mov r, x\n", k + 1, k);
+    for (i = 0; i < k % 7; i++) s += sprintf (s, "  add r, r, %d\n", 1000 + i); /* shift the layout */
+    for (i = 0; i < BIG_CALLS; i++) {
+      s += sprintf (s, "  call p, callee, r, r\n");
+      if ((i * 7 + k) % 5 == 0) s += sprintf (s, "  add r, r, %d\n", (i + k) % 3 == 0 ? 1 : 300); /* vary the spacing */
+    }
+    s += sprintf (s, "  ret r\n  endfunc\n  endmodule\n");
+    API ("MIR_scan_string");
+    MIR_scan_string (ctx, prog);
+    API ("MIR_load_module");
+    for (m = DLIST_HEAD (MIR_module_t, *MIR_get_module_list (ctx)); m != NULL; m = DLIST_NEXT (MIR_module_t, m))
+      if (DLIST_NEXT (MIR_module_t, m) == NULL || k == 0) MIR_load_module (ctx, m);
+    API ("MIR_link");
+    MIR_link (ctx, strcmp (h->link, "lazy") == 0 ? MIR_set_lazy_gen_interface : MIR_set_gen_interface, resolver);
+    sprintf (fname, "f%d", k);
+    m = DLIST_TAIL (MIR_module_t, *MIR_get_module_list (ctx));
+    for (it = DLIST_HEAD (MIR_item_t, m->items); it != NULL; it = DLIST_NEXT (MIR_item_t, it))
+      if (it->item_type == MIR_func_item && strcmp (it->u.func->name, fname) == 0) f = it;
+    if (f == NULL) return "bigcode: function not found";
+    API ("call_main");
+    res += ((long (*) (long)) f->addr) (5);
+  }
+  c17_note ("main_result", res);
+  c17_note ("bigcode_modules", k);
+  c17_note ("straddling_protects", c17_straddling_protects ());
+  API ("MIR_gen_finish");
+  MIR_gen_finish (ctx);
+  API ("MIR_finish");
+  MIR_finish (ctx);
+  c17_finish ();
+  return NULL;
+}
+
 /* returns NULL when the history completed, else the reason it was abandoned */
 static const char *run_ctx (struct hist *h, const char *name, const char *write_to) {
   MIR_context_t ctx;
@@ -341,6 +448,7 @@ static const char *run_ctx (struct hist *h, const char *name, const char *write_
     MIR_load_external (ctx, "abort", abort);
     MIR_load_external (ctx, "exit", q_exit);
     MIR_load_external (ctx, "printf", q_printf);
+    MIR_load_external (ctx, "sumv", q_sumv);
     main_func = find_main (ctx);
     for (rep = 0; rep < h->rep; rep++) {
       if (gen_used) {
@@ -432,6 +540,8 @@ int main (int argc, char **argv) {
       unlink (path);
     } else if (strcmp (h.src, "adt") == 0) {
       why = run_adt (argv[i]);
+    } else if (strcmp (h.src, "bigcode") == 0) {
+      why = run_bigcode (&h, argv[i]);
     } else {
       why = run_ctx (&h, argv[i], NULL);
     }
